@@ -95,7 +95,8 @@ def judgeWhole (mode : EMode) (ref : Except RErr (List HF × DynTab)) (strictVio
     match ref with
     | .error e =>
       if wErr then "ok"
-      else if e.isHuff ∧ mode != .none then "ok"   -- strings of non-indexed fields are skipped while emission is off
+      else if (e.isHuff ∨ e = .strlen) ∧ mode != .none then "ok"   -- strings of non-indexed fields are skipped (not
+                                                                    -- decoded, so not measured) while emission is off
       else "FAIL:accepted-" ++ rerrName e
     | .ok (fs, t) =>
       match mode with
